@@ -29,6 +29,7 @@ import (
 	"os/exec"
 	"path/filepath"
 	"runtime/debug"
+	"sort"
 	"strconv"
 	"strings"
 	"sync"
@@ -1412,6 +1413,7 @@ func c14rendezvous() string {
 }
 
 type c14runner struct {
+	mu       sync.Mutex
 	r        *vh.Run
 	dir      string
 	stall    time.Duration
@@ -1437,6 +1439,8 @@ func (c *c14runner) handle(ex c14exit) string {
 		defer c.confirms.Done()
 		c14confirm(r, c.dir, desc, op, cls, 5*c.stall)
 	}(ex.desc, ex.op, ex.cls)
+	c.mu.Lock()
+	defer c.mu.Unlock()
 	if ex.hung {
 		c.stalls++
 		// a stall only takes this (case, op) out; a class is taken out by a death
@@ -1444,6 +1448,7 @@ func (c *c14runner) handle(ex c14exit) string {
 	} else {
 		c.ndeaths++
 		c.skipKeys = append(c.skipKeys, ex.op+":"+ex.cls)
+		sort.Strings(c.skipKeys)
 		r.Capped("the (op,class) combinations " + strings.Join(c.skipKeys, ", ") + " are not run on further cases after the smallest case of each killed a worker")
 	}
 	return strconv.Itoa(ex.idx) + "." + ex.op
@@ -1457,19 +1462,30 @@ func c14graphs(r *vh.Run, dir string, shard, nshards int) {
 
 	// phase 1: the minimal cyclic values, all ops, in shard 0 (not subject to the deadline: it produces the verdicts)
 	phase1 := func() {
-		w := c14work{Tier: r.R.Tier, Descs: c14minimalCyclic()}
-		for {
-			w.SkipKeys = c.skipKeys
-			batches, ex := c14spawn(w, dir, c14nextProc(), c.stall, never)
-			if len(batches) > 0 && batches[len(batches)-1].Done {
-				for _, b := range batches {
-					c14merge(r, b)
+		// one worker chain per operation, in parallel: a chain restarts after each death of its operation
+		var wg sync.WaitGroup
+		for _, op := range c14ops {
+			wg.Add(1)
+			go func(op string) {
+				defer wg.Done()
+				w := c14work{Tier: r.R.Tier, Descs: c14minimalCyclic(), Ops: []string{op}}
+				for n := 0; ; n++ {
+					c.mu.Lock()
+					w.SkipKeys = append([]string{}, c.skipKeys...)
+					c.mu.Unlock()
+					batches, ex := c14spawn(w, dir, c14nextProc(), c.stall, never)
+					if len(batches) > 0 && batches[len(batches)-1].Done {
+						for _, b := range batches {
+							c14merge(r, b)
+						}
+						return
+					}
+					w.Skip = append(w.Skip, c.handle(ex))
+					r.Need(n <= 20, "phase 1 does not converge for %s", op)
 				}
-				return
-			}
-			w.Skip = append(w.Skip, c.handle(ex))
-			r.Need(c.ndeaths+c.stalls <= 80, "phase 1 does not converge (%d deaths)", c.ndeaths)
+			}(op)
 		}
+		wg.Wait()
 	}
 	if shard == 0 {
 		phase1()
